@@ -393,7 +393,7 @@ def make_case(r, tree, env, layout=0, nesting=0, description=None, placement=Non
               force=()):
     """Distribute the free names over condition parameters / closure / globals and build the call."""
     free = sorted(n for n in set(names_in(tree)) | set(force) if n in env or (n not in BUILTINS and n not in HELPERS))
-    cond_params, closure, globs = [], [], []
+    cond_params, closure, globs, cond_defaults = [], [], [], []
     # CPython >= 3.12 inlines list/dict comprehensions: their loop variable becomes a local of the lambda, so a
     # closure or global variable of the same name used elsewhere in the condition is no longer reachable
     # (UnboundLocalError when the condition itself runs).  Such names are parameters here (reading N9).
@@ -408,10 +408,14 @@ def make_case(r, tree, env, layout=0, nesting=0, description=None, placement=Non
         where = (placement or {}).get(n) or r.choice(["param", "param", "param", "closure", "global"])
         if n in inlined:
             where = "param"
+        elif where == "param" and n in INT_VARS and placement is None and r.random() < 0.12:
+            where = "default"
         if n in ("_ARGS", "_KWARGS"):
             where = "param"
-        {"param": cond_params, "closure": closure, "global": globs}[where].append(n)
+        {"param": cond_params, "closure": closure, "global": globs, "default": cond_defaults}[where].append(n)
     func_params = [n for n in cond_params if n not in ("_ARGS", "_KWARGS")]
+    # parameters of the condition with a default value which the decorated function does not have
+    cond_params = cond_params + cond_defaults
     args = [[n, env[n]] for n in func_params]
     for n, v in (extra_args or []):
         if n not in func_params:
@@ -432,7 +436,8 @@ def make_case(r, tree, env, layout=0, nesting=0, description=None, placement=Non
     case = {"tree": tree, "cond_params": cond_params, "func_params": func_params, "args": args,
             "closure": [[n, env[n]] for n in closure] + decoy_closure,
             "globals": [[n, env[n]] for n in globs] + decoy_globals + [[h, {"fn": h}] for h in HELPERS],
-            "layout": layout, "nesting": nesting, "description": description}
+            "layout": layout, "nesting": nesting, "description": description,
+            "cond_defaults": [[n, env[n]] for n in cond_defaults]}
     known = set(INT_VARS + BOOL_VARS + LIST_VARS + STR_VARS + OPT_VARS + REC_VARS + DICT_VARS)
     cnames = [n for n, _ in case["closure"]]
     if cnames and all(n in known for n in cnames) and r.random() < 0.35:
@@ -510,6 +515,9 @@ def directed():
                                        ["cmp", ["attr", ["attr", N("r"), "child"], "size"], [[">", K(0)]]]]],
          {"r": {"rec": 1, "f": [["size", 1], ["items", []], ["name", ""], ["child", None]]}}, {}),
         ("guard-ifexp", ["if", N("xs"), ["cmp", ["sub", N("xs"), K(0)], [[">", K(0)]]], K(False)], {"xs": []}, {}),
+        # a parameter of the condition with a default value, not an argument of the function
+        ("cond-default", ["bool", "and", [["cmp", call("len", N("xs")), [[">=", N("n")]]], ["cmp", ["sub", N("xs"), K(0)], [[">", K(0)]]]]],
+         {"xs": [], "n": 1}, {"placement": {"xs": "param", "n": "default"}}),
         # `or` nested inside a call; `and` returning an operand
         ("or-in-call", call("bool", ["bool", "or", [N("x"), N("y")]]), {"x": 0, "y": 0}, {}),
         ("or-in-len", ["cmp", call("len", ["bool", "or", [N("xs"), N("ys")]]), [[">", K(3)]]], {"xs": [], "ys": [1]}, {}),
